@@ -311,6 +311,14 @@ static void gen_conv(struct scen *sc, struct rng *r, long c)
 	}
 	if (c % 11 == 5)
 		sc->no_data = true, add_event(&sc->cfg, (time_t)(1 + rndn(r, (uint32_t)span + 1)), 5, 0);
+	if (c % 9 == 4) {
+		/* an unsolicited PDU that arrives slowly around the time the first refresh deadline passes, then new data */
+		time_t t = (time_t)sc->cfg.refresh > 3 ? (time_t)sc->cfg.refresh - 1 - (time_t)rndn(r, 3) : 1;
+		uint32_t gap = 3 + rndn(r, 5);
+
+		add_event(&sc->cfg, t, 8, gap);
+		add_event(&sc->cfg, t + gap + 2, 1, 3);
+	}
 }
 
 static const int POSCLASS[] = {0, -2, -3, -4, -5, -1};
@@ -456,6 +464,11 @@ static void gen_expiry(struct scen *sc, struct rng *r, long c)
 	add_event(&sc->cfg, sc->cfg.outage_from + 5, 1, 3);
 	if (sc->cfg.outage_mode >= 5)
 		add_event(&sc->cfg, 0, 2, 0);
+	/* one scenario in four has no records of other sources in the tables: after the purge they are empty, and the
+	 * reload that follows starts from a table without any IPv4 / IPv6 tree */
+	sc->cfg.others = rndp(r, 3, 4);
+	if (!sc->cfg.others)
+		CNT("c08/expiry_scenarios_on_otherwise_empty_tables");
 }
 
 static void gen_stops(struct scen *sc, struct rng *r, long c)
